@@ -1,4 +1,12 @@
 --------------------------- MODULE LifecycleTrace ---------------------------
+(* Validates traces recorded by harness/vh/c11.go (martian.Proxy driven through a     *)
+(* harness listener, connections and round tripper) against Lifecycle.tla.            *)
+(* Logged: reset, accept / send / vanish (harness acted), forwarded (the round        *)
+(* tripper was entered), reply (harness let the origin answer), response (client      *)
+(* received a complete response), sockclosed (proxy closed the connection), sd_call,   *)
+(* sd_begun (harness asserts the signal has been given: it waited long enough),        *)
+(* sd_return, ctx_expire, close (Close() returned).  Registration, the closing         *)
+(* checks, the counter and the mutex are unlogged and inferred.                        *)
 EXTENDS Lifecycle, Json, IOUtils
 
 TraceLog == ndJsonDeserialize(IOEnv.TRACE_FILE)
@@ -7,30 +15,41 @@ tvars == <<vars, l>>
 
 Ev(e) == l <= Len(TraceLog) /\ TraceLog[l].ev = e /\ l' = l + 1
 C(x) == CHOOSE c \in Conns : ToString(c) = x
+Cur == C(TraceLog[l].c)
 
 TInit == Init /\ l = 1 /\ TLCSet(1, 0)
+Reset == /\ Ev("reset")
+  /\ closeCh' = FALSE /\ mu' = Free /\ conns' = {} /\ wg' = 0 /\ listener' = "open"
+  /\ pc' = [c \in Conns |-> "none"] /\ sock' = [c \in Conns |-> "none"]
+  /\ inbox' = [c \in Conns |-> 0] /\ nreq' = [c \in Conns |-> 0]
+  /\ sentAfter' = [c \in Conns |-> [k \in Req |-> FALSE]]
+  /\ fwd' = [c \in Conns |-> [k \in Req |-> FALSE]]
+  /\ resp' = [c \in Conns |-> [k \in Req |-> FALSE]]
+  /\ sd' = "idle" /\ sdBegun' = FALSE /\ ctx' = "live" /\ cl' = "idle" /\ served' = {}
 Logged ==
-  \/ Ev("accept")    /\ (Accept(C(TraceLog[l].c)) \/ AcceptLate(C(TraceLog[l].c)))
-  \/ Ev("send")      /\ ClientSend(C(TraceLog[l].c))
-  \/ Ev("vanish")    /\ ClientVanish(C(TraceLog[l].c))
-  \/ Ev("forwarded") /\ HRoundTrip(C(TraceLog[l].c))
-  \/ Ev("reply")     /\ OriginReply(C(TraceLog[l].c))
-  \/ Ev("response")  /\ HWrite(C(TraceLog[l].c)) /\ resp'[C(TraceLog[l].c)][nreq[C(TraceLog[l].c)]]
-  \/ Ev("sockclosed") /\ HClose(C(TraceLog[l].c))
-  \/ Ev("sd_call")   /\ SdCall
-  \/ Ev("sd_signal") /\ SdLock
-  \/ Ev("ctx_expire") /\ CtxExpire
-  \/ Ev("sd_return") /\ SdPoll /\ sd' = TraceLog[l].res
-  \/ Ev("close")     /\ ClCall
-  \/ Ev("listener_close") /\ ListenerClose
+  \/ Reset
+  \/ (Ev("accept")    /\ (Accept(Cur) \/ AcceptLate(Cur)))
+  \/ (Ev("send")      /\ ClientSend(Cur))
+  \/ (Ev("vanish")    /\ ClientVanish(Cur))
+  \/ (Ev("forwarded") /\ HRoundTrip(Cur))
+  \/ (Ev("reply")     /\ OriginReply(Cur))
+  \* an observation, possibly logged after the proxy has already gone on (the client parses concurrently)
+  \/ (Ev("response")  /\ resp[Cur][nreq[Cur]] /\ UNCHANGED vars)
+  \/ (Ev("sockclosed") /\ ((HClose(Cur) /\ sock[Cur] # "closed") \/ ClConn(Cur)))
+  \/ (Ev("sd_call")   /\ SdCall)
+  \/ (Ev("sd_begun")  /\ sdBegun /\ UNCHANGED vars)
+  \/ (Ev("ctx_expire") /\ CtxExpire)
+  \/ (Ev("sd_return") /\ SdPoll /\ sd' = TraceLog[l].res)
+  \/ (Ev("close")     /\ ClDone)
 Silent == /\ UNCHANGED l
           /\ \/ \E c \in Conns : HLock1(c) \/ HReg(c) \/ HChk1(c) \/ HRead(c) \/ HChk2(c) \/ HDec(c) \/ HLock2(c) \/ HUnreg(c)
-             \/ ClDo
+                                \/ HWrite(c)
+                                \/ (HClose(c) /\ sock[c] = "closed")    \* second Close of an already closed socket
+             \/ SdLock \/ ClCall \/ ClLock
 TNext == Logged \/ Silent
 TSpec == TInit /\ [][TNext]_tvars
 
-\* high-water mark of consumed lines (needs -workers 1)
 HWM == IF l > TLCGet(1) THEN TLCSet(1, l) ELSE TRUE
-InitHWM == TLCSet(1, 0)
-Accepted == TLCGet(1) = Len(TraceLog) + 1
+Accepted == /\ PrintT(<<"HWM", TLCGet(1) - 1, "of", Len(TraceLog)>>)
+            /\ TLCGet(1) = Len(TraceLog) + 1
 ==============================================================================
